@@ -346,7 +346,46 @@ def reshape(ex, state, a, newshape, line):
         res.merged_from = tuple(ro)         # the axes this array was merged from (checked by contracts of the micro systems)
         if len(newshape) == len(a.shape):
             set_roles(res, ro)
+        else:
+            g = _group_roles(a.shape, ro, newshape)
+            if g is not None:
+                set_roles(res, g)
     return res
+
+
+def _group_roles(old_shape, roles, new_shape):
+    """roles of a reshaped array when every new axis is (syntactically) the product of a run of old axes and the axes of the run
+    that are not of length 1 all carry the same role; or the other way round (a merged axis split again).  None otherwise."""
+    def same(x, y):
+        c = z3.simplify(zi(x) == zi(y))
+        if z3.is_true(c):
+            return True
+        if z3.is_false(c):
+            return False
+        from vt.e1.values import PROVER
+        return PROVER['decide'](c) is True if PROVER.get('decide') is not None else False
+    out, k = [], 0
+    for n in new_shape:
+        acc, rs = None, []
+        while k < len(old_shape):
+            acc = old_shape[k] if acc is None else acc * old_shape[k]
+            rs.append(roles[k])
+            k += 1
+            if same(acc, n):
+                break
+        else:
+            return None
+        if acc is None or not same(acc, n):
+            return None
+        real = {r for r in rs if r != '1'}
+        if len(real) > 1 or None in real:
+            return None
+        out.append(real.pop() if real else '1')
+    # trailing axes of length 1 may remain
+    for j in range(k, len(old_shape)):
+        if roles[j] != '1' and not same(old_shape[j], 1):
+            return None
+    return out
 
 
 def tensordot(ex, state, a, b, axes, line):
@@ -430,7 +469,24 @@ def einsum(ex, state, subscripts, operands, line):
         if ch not in dim:
             ex.ctx.oblige(state, 'einsum-output', line, False, 'output letter %r does not occur in the inputs' % ch)
             raise Unsupported('einsum output at line %d' % line)
-    return new_arr(state, [dim[ch] for ch in out], z3.simplify(cplx))
+    res = new_arr(state, [dim[ch] for ch in out], z3.simplify(cplx))
+    # ghost index roles: a letter summed over pairs two legs (ROLE_PAIRS); an output letter keeps the role of its axis
+    role, known = {}, True
+    for sub, a in zip(ins, operands):
+        a = a.val if isinstance(a, SOpt) else a
+        ro = roles_of(a) if isinstance(a, SArr) else None
+        if ro is None:
+            known = False
+            continue
+        for ch, r_ in zip(sub, ro):
+            role.setdefault(ch, []).append(r_)
+    if known:
+        for ch, rs in role.items():
+            if ch not in out and len(rs) == 2 and rs[0] is not None and rs[1] is not None:
+                ex.ctx.oblige(state, 'sesquilinear-structure', line, z3.BoolVal((rs[0], rs[1]) in ROLE_PAIRS),
+                              'einsum letter %r sums an axis of role %s with an axis of role %s: these legs do not pair' % (ch, rs[0], rs[1]))
+        set_roles(res, [role[ch][0] if len(role.get(ch, [])) == 1 else None for ch in out])
+    return res
 
 
 def dot(ex, state, a, b, line):
